@@ -503,8 +503,17 @@ def run_coqchk(res):
     """thorough tier: re-check every compiled Props file and all it depends on with the independent checker"""
     import re
     import subprocess
-    mods = ['Exactly.Props.' + fn[:-3] for fn in sorted(os.listdir(os.path.join(common.COQ, 'Props')))
-            if fn.endswith('.vo')]
+    # bring EVERY compiled file up to date first (each check builds only its own cone; a .vo outside this cone may be older than
+    # a model it imports, which the independent checker rightly refuses as "inconsistent assumptions")
+    br = common.coq_build(keep_going=True)
+    if br.ok:
+        mods = ['Exactly.Props.' + fn[:-2] for fn in sorted(os.listdir(os.path.join(common.COQ, 'Props')))
+                if fn.endswith('.v') and os.path.exists(os.path.join(common.COQ, 'Props', fn + 'o'))]
+    else:
+        # something outside this property's cone does not build (reported by that property's own check): re-check this cone only
+        mods = ['Exactly.Props.C01', 'Exactly.Props.SrcTie_C01']
+        res.extra['coqchk_scope'] = 'C01 cone only: the full project does not build (%s)' % '; '.join(
+            '%s:%s' % (b[0], b[1]) for b in br.broken[:5])
     try:
         p = subprocess.run(['timeout', '3000', 'coqchk', '-silent', '-o', '-R', '.', 'Exactly'] + mods, cwd=common.COQ,
                            stdout=subprocess.PIPE, stderr=subprocess.STDOUT, text=True)
